@@ -301,9 +301,23 @@ func checkPatternTextQuoted(p *Prog, r *Result, rule string) {
 					}
 					return f
 				}
-				be, ok := ast.Unparen(e.Cond).(*ast.BinaryExpr)
+				be0, ok := ast.Unparen(e.Cond).(*ast.BinaryExpr)
 				if !ok {
 					return f
+				}
+				be := *be0
+				if isConst(be.X) { // the constant may be written on either side
+					be.X, be.Y = be.Y, be.X
+					switch be.Op {
+					case token.LSS:
+						be.Op = token.GTR
+					case token.LEQ:
+						be.Op = token.GEQ
+					case token.GTR:
+						be.Op = token.LSS
+					case token.GEQ:
+						be.Op = token.LEQ
+					}
 				}
 				o := identObj(be.X)
 				if o == nil {
